@@ -849,6 +849,8 @@ static sexp analyze_lambda (sexp ctx, sexp x, int depth) {
   sexp name, ls, ctx3;
   sexp_gc_var6(res, body, tmp, value, defs, ctx2);
   sexp_gc_preserve6(ctx, res, body, tmp, value, defs, ctx2);
+  if (depth > SEXP_MAX_ANALYZE_DEPTH)
+    sexp_return(res, sexp_compile_error(ctx, "SEXP_MAX_ANALYZE_DEPTH exceeded", x));
   /* verify syntax */
   if (! (sexp_pairp(sexp_cdr(x)) && sexp_pairp(sexp_cddr(x))))
     sexp_return(res, sexp_compile_error(ctx, "bad lambda syntax", x));
@@ -891,7 +893,7 @@ static sexp analyze_lambda (sexp ctx, sexp x, int depth) {
       tmp = sexp_cons(ctx3, sexp_cdaar(tmp), sexp_cdar(tmp));
       tmp = sexp_cons(ctx3, SEXP_VOID, tmp);
       sexp_pair_source(tmp) = sexp_pair_source(sexp_caar(ls));
-      value = analyze_lambda(ctx3, tmp, depth);
+      value = analyze_lambda(ctx3, tmp, depth+1);
     } else {
       name = sexp_caar(tmp);
       value = analyze(ctx3, sexp_cadar(tmp), depth, 0);
